@@ -104,7 +104,10 @@ impl Aml for RIMT {
     fn to_aml_bytes(&self, sink: &mut dyn AmlSink) {
         sink.vec(self.header.as_bytes());
 
-        assert!(self.devices.len() <= u32::MAX as usize, "too many RIMT devices");
+        assert!(
+            self.devices.len() <= u32::MAX as usize,
+            "too many RIMT devices"
+        );
         sink.dword(self.devices.len() as u32);
         sink.dword(Self::DEVICE_OFFSET);
         sink.dword(0); // reserved
@@ -249,7 +252,10 @@ impl Iommu {
 
 impl Aml for Iommu {
     fn to_aml_bytes(&self, sink: &mut dyn AmlSink) {
-        assert!(self.len() <= u16::MAX as usize, "IOMMU device does not fit its length field");
+        assert!(
+            self.len() <= u16::MAX as usize,
+            "IOMMU device does not fit its length field"
+        );
         // Type
         sink.byte(RimtDeviceType::Iommu as u8);
         // Revision
@@ -402,7 +408,10 @@ impl PcieRootComplex {
 
 impl Aml for PcieRootComplex {
     fn to_aml_bytes(&self, sink: &mut dyn AmlSink) {
-        assert!(self.len() <= u16::MAX as usize, "PCIe root complex device does not fit its length field");
+        assert!(
+            self.len() <= u16::MAX as usize,
+            "PCIe root complex device does not fit its length field"
+        );
         // Type
         sink.byte(RimtDeviceType::PcieRootComplex as u8);
         // Revision
@@ -465,7 +474,10 @@ impl Platform {
 
 impl Aml for Platform {
     fn to_aml_bytes(&self, sink: &mut dyn AmlSink) {
-        assert!(self.len() <= u16::MAX as usize, "platform device does not fit its length field");
+        assert!(
+            self.len() <= u16::MAX as usize,
+            "platform device does not fit its length field"
+        );
         // Type
         sink.byte(RimtDeviceType::Platform as u8);
         // Revision
